@@ -128,6 +128,16 @@ class SRat:
     def __trunc__(s):
         return SInt(z3.If(s.e >= 0, z3.ToInt(s.e), -z3.ToInt(-s.e)))
 
+    def __round__(s, ndigits=None):
+        """Python's round() on the exact quotient: nearest integer, exact ties to the even neighbour (the float division behind an SRat is exact
+        by its side obligation, so rounding the exact value is what the code computes)"""
+        if ndigits is not None:
+            raise Unmodelled("round(x, ndigits) on a symbolic rational")
+        fl = z3.ToInt(s.e)
+        frac = s.e - z3.ToReal(fl)
+        up = z3.Or(frac > z3.RealVal("1/2"), z3.And(frac == z3.RealVal("1/2"), fl % 2 != 0))
+        return SInt(z3.If(up, fl + 1, fl))
+
     def __sym_toint__(s):
         return s.__trunc__()
 
